@@ -16,7 +16,13 @@ class Tie(Exception):
 def gt(lhs, rhs):
     """lhs > rhs, refusing to guess when the comparison is numerically tied."""
     if lhs == rhs:
-        return False  # exact tie (degenerate cases such as s = 0): `>` is false in exact arithmetic too
+        # equality of small dyadic numbers (0, 1, 1.25, ...: constant streams, s = 0, equal gaps) is exact in the
+        # incremental computation as well, so `>` is false there too; equality of anything else (say two equal
+        # mean + level * std values) is exact only in THIS batch computation - the code's incremental
+        # statistics round differently, and the comparison is numerically tied
+        if math.isinf(lhs) or float(lhs * 1048576.0).is_integer():
+            return False
+        raise Tie()
     if abs(lhs - rhs) <= TIE * max(1.0, abs(lhs), abs(rhs)):
         raise Tie()
     return lhs > rhs
@@ -206,7 +212,7 @@ def check_rddm(ck, cfg, xs):
             ck.violation(dict(clause="rddm-suffix"), dict(what="suffix length out of range", **detail))
             return out, False
         mean = sum(xs[t + 1 - k : t + 1]) / k
-        if abs(a[3][0] - mean) > 1e-9:
+        if not (abs(a[3][0] - mean) <= 1e-9):
             ck.violation(dict(clause="rddm-suffix"), dict(what="error rate is not the mean of the last k values", error_rate=a[3][0], suffix_mean=mean, **detail))
             return out, False
         if k != prev_k + 1:
